@@ -150,6 +150,7 @@ def step (s : St) (line : String) : St × String :=
       | none => (s, bad3)
   | ["closeby", _, _, _] =>
       if impl = "hang" then (s, "-\thang\tFAIL Close triggered from the input goroutine never completes") else
+      if impl = "nopanic" then (s, "-\t-\t-") else
       match lex impl with
       | some itoks =>
         let t := ModeTerm.run s.t itoks
